@@ -742,6 +742,10 @@ func (c *Conn) Closed() bool {
 	return c.closed
 }
 
+// SetPeer changes the address RemoteAddr reports (scenarios in which one
+// client talks to many different servers).
+func (c *Conn) SetPeer(a net.Addr) { c.peer = a }
+
 func (c *Conn) LocalAddr() net.Addr  { return c.local }
 func (c *Conn) RemoteAddr() net.Addr { return c.peer }
 
